@@ -18,12 +18,13 @@ fn second_problem(scn: &mut Scenario, rng: &mut Xo, families: &[&'static str]) {
     let mut geo = crate::spaces::geo_for(own_space.as_ref().unwrap_or(&scn.space)).unwrap();
     let ext = scn.param("ext").unwrap_or(1.0);
     let fam = *rng.pick(families);
-    let wb = gen::build_world(&mut geo, rng, ext, fam);
+    let mut wb = gen::build_world(&mut geo, rng, ext, fam);
+    wb.world.harness_metric = scn.worlds[0].harness_metric;
     scn.worlds.push(wb.world);
     let sampler = scn.problems[0].goal.sampler;
     scn.problems.push(ProblemSpec {
         starts: vec![wb.start],
-        goal: GoalSpec { target: wb.target, radius: wb.goal_radius, sampler, sampler_seed: rng.u64() % 1_000_000, comp: wb.goal_comp },
+        goal: GoalSpec { target: wb.target, radius: wb.goal_radius, sampler, sampler_seed: rng.u64() % 1_000_000, comp: wb.goal_comp, harness_metric: scn.problems[0].goal.harness_metric },
         world: scn.worlds.len() - 1,
         space: own_space,
     });
@@ -76,7 +77,7 @@ fn second_problem_same_world_v(scn: &mut Scenario, rng: &mut Xo, invalid_start: 
     let same_goal = !own_space && rng.chance(0.33);
     scn.problems.push(ProblemSpec {
         starts: vec![s2],
-        goal: if same_goal { g.clone() } else { GoalSpec { target: t2, radius: g.radius, sampler: g.sampler, sampler_seed: g.sampler_seed + 1, comp: None } },
+        goal: if same_goal { g.clone() } else { GoalSpec { target: t2, radius: g.radius, sampler: g.sampler, sampler_seed: g.sampler_seed + 1, comp: None, harness_metric: g.harness_metric } },
         world: 0,
         space: sp,
     });
@@ -972,7 +973,7 @@ fn c08_small_world(rng: &mut Xo, kind: PlannerKind, seed: u64, index: u64) -> Sc
     let g = scn.problems[0].goal.clone();
     scn.problems.push(ProblemSpec {
         starts: vec![s2],
-        goal: GoalSpec { target: t2, radius: g.radius, sampler: GoalSampler::Harness, sampler_seed: g.sampler_seed + 1, comp: None },
+        goal: GoalSpec { target: t2, radius: g.radius, sampler: GoalSampler::Harness, sampler_seed: g.sampler_seed + 1, comp: None, harness_metric: g.harness_metric },
         world: 0, space: None
     });
     scn
